@@ -38,9 +38,13 @@
        lenient = A \/ B.  A `**` that has just consumed a '/' stands at the next component start.
    U2  a wildcard-matched component that is a symbolic link to a directory: whether expansion
        descends through it.  strict: the characters of a traversed link component and its
-       delimiting slashes are consumed by lit/slash segments only; lenient: no restriction.
+       delimiting slashes are consumed by lit/slash segments only and no wildcard matches
+       the empty string inside that component (`b*/` vs a link b); lenient: no restriction.
    U3  `**` with matchers consuming '/': strict only if a matcher accepts '/'; lenient always.
    U4  type: of a path with a trailing slash that names a symbolic link ("s/").
+   U5  the trailing '/' of a path ("d/", the directory itself): strict only a slash segment that
+       ends the pattern consumes it (`*/`); lenient a `**` may too, and wildcards matching the
+       empty string may follow (`?/*` vs "a/").
    Not modelled (never generated): several matchers inside one modifier, `.`/`..` components,
    `//`, absolute patterns; the order of results is not compared. *)
 EXTENDS Integers, Sequences, FiniteSets
@@ -95,10 +99,12 @@ Match(segs, path, lock, strict, UC) ==
         LET ch == path[j] IN
         /\ (strict => j \notin lock)
         /\ IF ch = SLASH
-           THEN s.t = "ss" /\ (strict => Accepts(s.ms, SLASH, UC))
+           THEN s.t = "ss" /\ (strict => (Accepts(s.ms, SLASH, UC) /\ j < n))
            ELSE Accepts(s.ms, ch, UC)
         /\ ((CompInit(j) /\ ch = DOT) =>
               IF strict THEN s.h /\ f1 = 1 ELSE s.h \/ f1 = 1)
+      \* an empty wildcard match inside (or at the edge of) a locked component also counts
+      Clear(j) == ~strict \/ ~(j \in lock /\ (j = 1 \/ (j - 1) \in lock))
       RECURSIVE M(_, _, _)
       M(i, j, f) ==
         IF i > Len(segs) THEN j = n + 1
@@ -113,16 +119,17 @@ Match(segs, path, lock, strict, UC) ==
                   [] s.t = "slash" ->
                        /\ j <= n
                        /\ path[j] = SLASH
+                       /\ ((strict /\ j = n) => i = Len(segs))
                        /\ M(i + 1, j + 1, 0)
                   [] s.t = "q" ->
                        /\ j <= n
                        /\ CanEat(s, j, f1)
                        /\ M(i + 1, j + 1, 0)
                   [] s.t = "star" ->
-                       \/ M(i + 1, j, f1)
+                       \/ (Clear(j) /\ M(i + 1, j, f1))
                        \/ (j <= n /\ CanEat(s, j, f1) /\ M(i, j + 1, 0))
                   [] s.t = "ss" ->
-                       \/ M(i + 1, j, f1)
+                       \/ (Clear(j) /\ M(i + 1, j, f1))
                        \/ (j <= n /\ CanEat(s, j, f1)
                            /\ M(i, j + 1, IF path[j] = SLASH THEN (IF s.h THEN 1 ELSE 2) ELSE 0))
                   [] OTHER -> FALSE
@@ -178,12 +185,17 @@ Entries(tree) == {tree[i] : i \in 1..Len(tree)}
 ViaOnce(tree, S) ==
   UNION {{s.p \o SubSeq(q, Len(s.t) + 1, Len(q)) : q \in {r \in S : IsPrefixDir(s.t, r)}}
          : s \in {e \in Entries(tree) : e.k = "symdir"}}
-Candidates(tree) ==
+CandPaths(tree) ==
   LET c0 == {e.p : e \in Entries(tree)}
       c1 == c0 \cup ViaOnce(tree, c0)
-      c2 == c1 \cup ViaOnce(tree, c1)
-      ok == {p \in c2 : Walk(tree, p).ok}
-  IN ok \cup {p \o <<SLASH>> : p \in {q \in ok : Walk(tree, q).kind \in {"dir", "symdir"}}}
+  IN c1 \cup ViaOnce(tree, c1)
+\* candidates with their walk result and locked positions (each path is walked once)
+CandInfo(tree) ==
+  LET Info(p) == LET w == Walk(tree, p) IN [p |-> p, w |-> w, lock |-> LockOf(p, w.links)]
+      plain == {x \in {Info(p) : p \in CandPaths(tree)} : x.w.ok}
+      slashed == {Info(x.p \o <<SLASH>>) : x \in {y \in plain : y.w.kind \in {"dir", "symdir"}}}
+  IN plain \cup slashed
+Candidates(tree) == {x.p : x \in CandInfo(tree)}
 
 (* ---------------- filters ---------------- *)
 InButs(pat, p) == \E i \in 1..Len(pat.buts) : pat.buts[i] = p
@@ -203,8 +215,6 @@ Yields(tree, pat, p, strict, UC) ==
      /\ TypeOK(pat, w, strict)
      /\ Match(pat.segs, p, IF strict THEN LockOf(p, w.links) ELSE {}, strict, UC)
 
-\* candidates with their walk result and locked positions (computed once per tree)
-CandInfo(tree) == {[p |-> p, w |-> Walk(tree, p), lock |-> LockOf(p, Walk(tree, p).links)] : p \in Candidates(tree)}
 \* the candidates that match at all, each with the flag "matches under every reading";
 \* the global modifiers are filters on top of this set
 Matched(cands, segs, UC) ==
